@@ -42,7 +42,10 @@ def module_case(arg):
     common.repo_on_path()
     out = {"idx": arg["idx"], "viol": [], "cases": 0, "accepted_writes": 0, "rejected_writes": 0, "abstained": 0,
            "aborts": [], "distinct": [], "built": False, "sample": None, "leaf_kinds": {}, "rejected": 0, "bits_checked": 0}
-    gm = cppsuite.gen_module(arg["seed"], "mod", arg["idx"], arg.get("profile"))
+    profile = arg.get("profile")
+    if profile is None and arg["idx"] % 3 == 1:
+        profile = {"union_bias": True}  # every third module: tagged unions over twin sub-structures
+    gm = cppsuite.gen_module(arg["seed"], "mod", arg["idx"], profile)
     out["rejected"] = len(gm["rejected"])
     if gm["m"] is None:
         return out
